@@ -11,11 +11,19 @@ Local Arguments u32_bytes : simpl never.
 Local Arguments u16_bytes : simpl never.
 
 (** ** the fragment: result-less blocks entered at an empty operand stack *)
-Definition jt_ok (f : vframe) (j : jump_target) : Prop :=
-  (exists locs, j = JUnknown locs None /\ (vf_is_if f = true -> locs <> []))
-  \/ (exists pos, j = JKnown pos /\ vf_is_if f = false).      (* a loop: the target is its start *)
-Definition frame_ok (f : vframe) (j : jump_target) : Prop :=
-  vf_height f = 0%nat /\ vf_label f = None /\ vf_end f = None /\ jt_ok f j.
+(** the reserved result register of a value-typed frame is a dynamic location below the bound [B] *)
+Definition resv (nl B : Z) (lbl : blocktype) (res : option provider) : Prop :=
+  match lbl, res with
+  | None, None => True
+  | Some _, Some (PDyn d) => nl <= d < B
+  | _, _ => False
+  end.
+Definition jt_ok (nl B : Z) (f : vframe) (j : jump_target) : Prop :=
+  (exists locs res, j = JUnknown locs res /\ (vf_is_if f = true -> locs <> []) /\ resv nl B (vf_label f) res)
+  \/ (exists pos, j = JKnown pos /\ vf_is_if f = false /\ vf_label f = None).   (* a loop: the target is its start *)
+Definition frame_ok (nl B : Z) (f : vframe) (j : jump_target) : Prop :=
+  vf_height f = 0%nat /\ vf_end f = vf_label f /\ jt_ok nl B f j.
+Definition no_res (j : jump_target) : Prop := match j with JUnknown _ (Some _) => False | _ => True end.
 
 Definition vmode (v : vstate) : Prop :=
   v_unreach v = None \/
@@ -25,19 +33,28 @@ Record inv (nl : Z) (s : cstate) (v : vstate) : Prop := {
   i_cwf : cwf nl s;
   i_bp : bpwf s;
   i_len : length (c_stack s) = v_opds v;
-  i_frames : Forall2 frame_ok (v_ctrls v) (c_bp s);
+  i_frames : Forall2 (frame_ok nl (c_next s)) (v_ctrls v) (c_bp s);
   i_mode : vmode v
 }.
 
 Definition jt_sub (j j' : jump_target) : Prop :=
-  (exists locs add, j = JUnknown locs None /\ j' = JUnknown (locs ++ add) None) \/ (exists pos, j = JKnown pos /\ j' = JKnown pos).
+  (exists locs add res, j = JUnknown locs res /\ j' = JUnknown (locs ++ add) res) \/ (exists pos, j = JKnown pos /\ j' = JKnown pos).
 Definition bp_sub (b b' : list jump_target) : Prop := Forall2 jt_sub b b'.
-Lemma jt_sub_refl f j : frame_ok f j -> jt_sub j j.
+Lemma jt_sub_refl nl B f j : frame_ok nl B f j -> jt_sub j j.
 Proof.
-  intros (_ & _ & _ & [(locs & -> & _)|(pos & -> & _)]); [left; exists locs, []; rewrite app_nil_r; auto|right; exists pos; auto].
+  intros (_ & _ & [(locs & res & -> & _)|(pos & -> & _)]); [left; exists locs, [], res; rewrite app_nil_r; auto|right; exists pos; auto].
+Qed.
+Lemma resv_mono nl B B' lbl res : B <= B' -> resv nl B lbl res -> resv nl B' lbl res.
+Proof. intros H. unfold resv. destruct lbl, res as [[d| |]|]; auto. lia. Qed.
+Lemma frames_mono nl B B' ctrls bp : B <= B' -> Forall2 (frame_ok nl B) ctrls bp -> Forall2 (frame_ok nl B') ctrls bp.
+Proof.
+  intros H F. induction F as [|f j ? ? Hf]; constructor; auto.
+  destruct Hf as (A & E & [(locs & res & -> & X & R)|(pos & -> & X)]); repeat split; auto.
+  - left. exists locs, res. repeat split; auto. eapply resv_mono; eauto.
+  - right. exists pos. auto.
 Qed.
 
-Lemma bp_sub_refl ctrls bp : Forall2 frame_ok ctrls bp -> bp_sub bp bp.
+Lemma bp_sub_refl nl B ctrls bp : Forall2 (frame_ok nl B) ctrls bp -> bp_sub bp bp.
 Proof.
   induction 1 as [|f j ? ? Hf]; constructor; auto. eapply jt_sub_refl; eauto.
 Qed.
@@ -46,23 +63,25 @@ Proof.
   intros H. revert d. induction H as [|j j' ? ? Hj]; intros d H2; inversion H2 as [|? j'' ? ? Hj2]; subst.
   - constructor.
   - constructor; [|apply IHForall2; assumption].
-    destruct Hj as [(locs & add & -> & ->)|(pos & -> & ->)], Hj2 as [(l2 & a2 & E & ->)|(pos2 & E & ->)]; try discriminate E.
-    + inversion E; subst. left. exists locs, (add ++ a2). rewrite app_assoc. auto.
+    destruct Hj as [(locs & add & res & -> & ->)|(pos & -> & ->)], Hj2 as [(l2 & a2 & res2 & E & ->)|(pos2 & E & ->)]; try discriminate E.
+    + inversion E; subst. left. exists locs, (add ++ a2), res2. rewrite app_assoc. auto.
     + right. exists pos. auto.
 Qed.
-Lemma bp_sub_update ctrls : forall bp k locs x,
-  Forall2 frame_ok ctrls bp -> nth_error bp k = Some (JUnknown locs None) ->
-  bp_sub bp (update_nth bp k (JUnknown (locs ++ [x]) None)).
+Lemma bp_sub_update nl B ctrls : forall bp k locs res x,
+  Forall2 (frame_ok nl B) ctrls bp -> nth_error bp k = Some (JUnknown locs res) ->
+  bp_sub bp (update_nth bp k (JUnknown (locs ++ [x]) res)).
 Proof.
-  intros bp k locs x H. revert k. induction H as [|f j ? ? Hf]; intros [|k] E; cbn in E; try discriminate.
-  - inversion E; subst. cbn. constructor; [left; exists locs, [x]; auto|eapply bp_sub_refl; eauto].
+  intros bp k locs res x H. revert k. induction H as [|f j ? ? Hf]; intros [|k] E; cbn in E; try discriminate.
+  - inversion E; subst. cbn. constructor; [left; exists locs, [x], res; auto|eapply bp_sub_refl; eauto].
   - cbn. constructor; [|apply IHForall2; exact E]. eapply jt_sub_refl; eauto.
 Qed.
-Lemma frames_update ctrls : forall bp k locs x,
-  Forall2 frame_ok ctrls bp -> Forall2 frame_ok ctrls (update_nth bp k (JUnknown (locs ++ [x]) None)).
+Lemma frames_update nl B ctrls : forall bp k locs res x,
+  Forall2 (frame_ok nl B) ctrls bp -> nth_error bp k = Some (JUnknown locs res) ->
+  Forall2 (frame_ok nl B) ctrls (update_nth bp k (JUnknown (locs ++ [x]) res)).
 Proof.
-  intros bp k locs x H. revert k. induction H as [|f j ? ? Hf]; intros [|k]; cbn; constructor; auto.
-  destruct Hf as (A & B & C & _). repeat split; auto. left. eexists; split; [reflexivity|]. intros _. destruct locs; discriminate.
+  intros bp k locs res x H. revert k. induction H as [|f j ? ? Hf]; intros [|k] E; cbn in E |- *; try discriminate; constructor; auto.
+  inversion E; subst. destruct Hf as (A & C & [(l0 & r0 & E0 & _ & R)|(pos & E0 & _)]); [|discriminate E0]. inversion E0; subst.
+  repeat split; auto. left. exists (l0 ++ [x]), r0. repeat split; auto. intros _. destruct l0; discriminate.
 Qed.
 
 Lemma truncate_n_spec nl : forall k s s', truncate_n k s = Some s' -> cwf nl s ->
@@ -85,12 +104,26 @@ Proof.
   destruct (bw_range _ W y Hy'). unfold in_win, cur_off in *. lia.
 Qed.
 
-Lemma frames_nth ctrls bp k f : Forall2 frame_ok ctrls bp -> nth_error ctrls k = Some f ->
-  vf_label f = None /\ ((exists locs, nth_error bp k = Some (JUnknown locs None)) \/ (exists pos, nth_error bp k = Some (JKnown pos))).
+Lemma frames_nth nl B ctrls bp k f : Forall2 (frame_ok nl B) ctrls bp -> nth_error ctrls k = Some f ->
+  (exists locs res, nth_error bp k = Some (JUnknown locs res) /\ resv nl B (vf_label f) res)
+  \/ (exists pos, nth_error bp k = Some (JKnown pos) /\ vf_label f = None).
 Proof.
   intros H. revert k. induction H as [|g j ? ? Hf]; intros [|k] E; cbn in E; try discriminate.
-  - inversion E; subst. destruct Hf as (_ & B & _ & [(locs & -> & _)|(pos & -> & _)]); split; auto; [left; exists locs|right; exists pos]; reflexivity.
+  - inversion E; subst. destruct Hf as (_ & _ & [(locs & res & -> & _ & R)|(pos & -> & _ & L)]); [left; exists locs, res|right; exists pos]; auto.
   - cbn. eauto.
+Qed.
+Lemma target_label_none nl B ctrls bp k f j : Forall2 (frame_ok nl B) ctrls bp -> nth_error ctrls k = Some f ->
+  nth_error bp k = Some j -> no_res j -> vf_label f = None.
+Proof.
+  intros H E Ej Hn. destruct (frames_nth nl B ctrls bp k f H E) as [(locs & res & E1 & R)|(pos & E1 & L)]; auto.
+  rewrite E1 in Ej. inversion Ej; subst j. destruct res; [contradiction|]. unfold resv in R. destruct (vf_label f); [contradiction|reflexivity].
+Qed.
+Lemma target_label_some nl B ctrls bp k f locs r : Forall2 (frame_ok nl B) ctrls bp -> nth_error ctrls k = Some f ->
+  nth_error bp k = Some (JUnknown locs (Some r)) -> exists t d, vf_label f = Some t /\ r = PDyn d /\ nl <= d < B.
+Proof.
+  intros H E Ej. destruct (frames_nth nl B ctrls bp k f H E) as [(l0 & res & E1 & R)|(pos & E1 & L)]; [|congruence].
+  rewrite E1 in Ej. inversion Ej; subst. unfold resv in R. destruct (vf_label f) as [t|]; [|contradiction].
+  destruct r as [d| |]; try contradiction. exists t, d. auto.
 Qed.
 
 Lemma reach_of_none v : v_unreach v = None -> v_reachability v = Reachable.
@@ -120,14 +153,20 @@ Proof.
   destruct I as [W B L Fr Md]. constructor; cbn; auto.
   - eapply cwf_same; [|exact W]. unfold same_alloc; cbn; tauto.
   - destruct B as [B1 B2 B3]. constructor; cbn; auto.
-  - constructor; auto. repeat split; cbn; auto. left. eexists; split; [reflexivity|discriminate].
+  - constructor; auto. repeat split; cbn; auto. left. exists [], None. repeat split; try discriminate; try exact Logic.I.
   - left. exact Hu.
 Qed.
 
-Lemma frames_cons f r bp : Forall2 frame_ok (f :: r) bp ->
-  vf_height f = 0%nat /\ vf_label f = None /\ vf_end f = None /\
-  exists j bp', bp = j :: bp' /\ Forall2 frame_ok r bp' /\ jt_ok f j.
-Proof. intros H. inversion H as [|? j ? bp' (A & B & C & D) Fr']; subst. splits; auto. exists j, bp'. auto. Qed.
+Lemma frames_cons nl B f r bp : Forall2 (frame_ok nl B) (f :: r) bp ->
+  vf_height f = 0%nat /\ vf_end f = vf_label f /\
+  exists j bp', bp = j :: bp' /\ Forall2 (frame_ok nl B) r bp' /\ jt_ok nl B f j.
+Proof. intros H. inversion H as [|? j ? bp' (A & C & D) Fr']; subst. splits; auto. exists j, bp'. auto. Qed.
+Lemma top_label_none nl B f r bp : Forall2 (frame_ok nl B) (f :: r) bp -> match bp with j :: _ => no_res j | [] => True end ->
+  vf_label f = None.
+Proof.
+  intros H Hn. destruct (frames_cons _ _ _ _ _ H) as (_ & _ & j & bp' & -> & _ & _).
+  eapply (target_label_none nl B (f :: r) (j :: bp') O f j); eauto.
+Qed.
 
 (** *** if *)
 Lemma op_if nl cx s v v1 s1 :
@@ -140,7 +179,7 @@ Lemma op_if nl cx s v v1 s1 :
 Proof.
   intros I Hu H1 Hv Hh. destruct I as [W B L Fr Md].
   cbn [vstep] in Hv. unfold v_pop in Hv. destruct (v_ctrls v) as [|f r] eqn:Ec; [discriminate|].
-  destruct (frames_cons _ _ _ Fr) as (Fh & _).
+  destruct (frames_cons _ _ _ _ _ Fr) as (Fh & _).
   rewrite H1, Fh in Hv. cbn in Hv. inversion Hv; subst v1; clear Hv.
   unfold handle_opcode in Hh. cbv beta iota zeta in Hh. apply checked in Hh. destruct Hh as [Hh Hl].
   unfold push_consume in Hh.
@@ -170,7 +209,7 @@ Proof.
     + destruct W2 as [A1 A2 A3 A4 A5]. constructor; try rewrite F3; try rewrite F4; try rewrite F5; try rewrite F7; try rewrite <- En; try rewrite <- Ecs; auto.
     + eapply (bpwf_add s s1 (cur_off s + 5) [] (all_locs (c_bp s))); auto; try lia.
     + rewrite F3. reflexivity.
-    + rewrite F2. constructor; [repeat split; cbn; auto; left; eexists; split; [reflexivity|discriminate]|exact Fr].
+    + rewrite F2, F4. constructor; [repeat split; cbn; auto; left; exists [cur_off s + 5], None; repeat split; try discriminate; exact Logic.I|exact Fr].
     + left. exact Hu.
   - eapply (ext_add s s1 _ (cur_off s + 5) [] (all_locs (c_bp s))); eauto; try lia.
 Qed.
@@ -195,12 +234,12 @@ Qed.
 Lemma mode_reach v : vmode v -> v_reachability v = Reachable \/ v_reachability v = UnreachableInstruction.
 Proof. intros [H|(H & Hn & _)]; [left; apply reach_of_none; auto|right; apply reach_term; auto]. Qed.
 
-Lemma pop_ctrl_inv v f r bp :
-  vmode v -> v_ctrls v = f :: r -> Forall2 frame_ok (f :: r) bp ->
+Lemma pop_ctrl_inv nl B v f r bp :
+  vmode v -> v_ctrls v = f :: r -> Forall2 (frame_ok nl B) (f :: r) bp -> vf_label f = None ->
   forall x, v_pop_ctrl v = Some x ->
   v_opds v = 0%nat /\ x = (None, vf_is_if f, {| v_opds := 0; v_ctrls := r; v_unreach := None |}).
 Proof.
-  intros Md Ec Fr x H. destruct (frames_cons _ _ _ Fr) as (Fh & Fl & Fe & _).
+  intros Md Ec Fr Fl x H. destruct (frames_cons _ _ _ _ _ Fr) as (Fh & Fe & _). rewrite Fl in Fe.
   unfold v_pop_ctrl in H. rewrite Ec, Fe in H. cbn [bt_arity v_popn] in H. rewrite Fh in H.
   destruct (Nat.eqb_spec (v_opds v) 0) as [E0|]; [|discriminate]. split; [exact E0|].
   inversion H; subst x; clear H. rewrite E0. do 3 f_equal.
@@ -219,27 +258,30 @@ Proof.
 Qed.
 
 Lemma op_end nl cx s v v1 s1 :
-  inv nl s v -> vstep cx v OEnd = Some v1 -> handle_opcode cx s v1 (v_reachability v) OEnd = Some s1 ->
+  inv nl s v -> match c_bp s with j :: _ => no_res j | [] => True end ->
+  vstep cx v OEnd = Some v1 -> handle_opcode cx s v1 (v_reachability v) OEnd = Some s1 ->
   exists j bp', c_bp s = j :: bp' /\ c_bp s1 = bp' /\ c_stack s = [] /\ c_stack s1 = []
   /\ c_next s1 = c_next s /\ c_consts s1 = c_consts s /\ c_last s1 = None /\ cur_off s1 = cur_off s /\ ext s s1
   /\ (forall loc, In loc (locs_of j) -> resolved s1 loc (cur_off s)) /\ inv nl s1 v1 /\ v_unreach v1 = None.
 Proof.
-  intros I Hv Hh. destruct I as [W B L Fr Md].
+  intros I Hnr Hv Hh. destruct I as [W B L Fr Md].
   cbn [vstep] in Hv. destruct (v_pop_ctrl v) as [[[res isif] v2]|] eqn:Ep; [|discriminate].
   destruct (v_ctrls v) as [|f r] eqn:Ec; [unfold v_pop_ctrl in Ep; rewrite Ec in Ep; discriminate|].
-  destruct (pop_ctrl_inv v f r (c_bp s) Md Ec Fr _ Ep) as [E0 Ex]. inversion Ex; subst res isif v2; clear Ex.
+  pose proof (top_label_none _ _ _ _ _ Fr Hnr) as Fl.
+  destruct (pop_ctrl_inv nl _ v f r (c_bp s) Md Ec Fr Fl _ Ep) as [E0 Ex]. inversion Ex; subst res isif v2; clear Ex.
   cbn [bt_arity v_pushn] in Hv. inversion Hv; subst v1; clear Hv.
   assert (Est : c_stack s = []) by (destruct (c_stack s); [reflexivity|cbn in L; lia]).
-  destruct (frames_cons _ _ _ Fr) as (_ & _ & _ & j & bp' & Ebp & Fr' & [(locs & -> & _)|(pos & -> & _)]).
-  - rewrite (handle_end cx s _ _ locs bp' (mode_reach v Md) Ebp) in Hh. cbv zeta in Hh. apply checked2 in Hh.
+  destruct (frames_cons _ _ _ _ _ Fr) as (_ & _ & j & bp' & Ebp & Fr' & [(locs & res & -> & _ & _)|(pos & -> & _)]).
+  1: { rewrite Ebp in Hnr. destruct res; [contradiction|]. revert Hh Ebp. intros Hh Ebp.
+    rewrite (handle_end cx s _ _ locs bp' (mode_reach v Md) Ebp) in Hh. cbv zeta in Hh. apply checked2 in Hh.
     destruct Hh as [Hs1 _]. symmetry in Hs1.
-    destruct (end_patch s locs bp' s1 B Ebp Hs1) as (A1 & A2 & A3 & A4 & A5 & A6 & A7 & A8 & A9 & A10).
+    destruct (end_patch s locs None bp' s1 B Ebp Hs1) as (A1 & A2 & A3 & A4 & A5 & A6 & A7 & A8 & A9 & A10).
     exists (JUnknown locs None), bp'. splits; auto; try congruence.
     constructor; cbn [v_opds v_ctrls v_unreach]; auto.
     + eapply cwf_same; [|exact W]. unfold same_alloc. auto.
     + rewrite A2, Est. reflexivity.
-    + rewrite A1. exact Fr'.
-    + left. reflexivity.
+    + rewrite A1, A3. exact Fr'.
+    + left. reflexivity. }
   - rewrite (handle_end_known cx s {| v_opds := 0; v_ctrls := r; v_unreach := None |} _ pos bp' (mode_reach v Md) Ebp eq_refl) in Hh. rewrite Est in Hh. cbn in Hh.
     inversion Hh; subst s1; clear Hh. cbn [set_bp set_last c_out c_bp c_stack c_next c_reuse c_consts c_last].
     exists (JKnown pos), bp'. splits; auto.
@@ -267,15 +309,15 @@ Proof.
   destruct I as [W B L Fr Md]. constructor; cbn; auto.
   - eapply cwf_same; [|exact W]. unfold same_alloc; cbn; tauto.
   - destruct B as [B1 B2 B3]. constructor; cbn; auto.
-  - constructor; auto. repeat split; cbn; auto. right. eexists; split; reflexivity.
+  - constructor; auto. repeat split; cbn; auto. right. eexists; repeat split; reflexivity.
   - left. exact Hu.
 Qed.
 
 (** *** br / br_if to a result-less label *)
-Lemma frames_mark f r bp : Forall2 frame_ok (f :: r) bp ->
-  Forall2 frame_ok ({| vf_is_if := vf_is_if f; vf_label := vf_label f; vf_end := vf_end f; vf_height := vf_height f;
+Lemma frames_mark nl B f r bp : Forall2 (frame_ok nl B) (f :: r) bp ->
+  Forall2 (frame_ok nl B) ({| vf_is_if := vf_is_if f; vf_label := vf_label f; vf_end := vf_end f; vf_height := vf_height f;
                        vf_unreachable := true |} :: r) bp.
-Proof. intros H. inversion H as [|? j ? bp' (A & B & C & D) Fr']; subst. constructor; auto. repeat split; auto. Qed.
+Proof. intros H. inversion H as [|? j ? bp' (A & C & D) Fr']; subst. constructor; auto. repeat split; auto. Qed.
 
 Lemma op_br nl cx s v v1 s1 k locs :
   inv nl s v -> v_unreach v = None -> nth_error (c_bp s) k = Some (JUnknown locs None) ->
@@ -287,9 +329,9 @@ Lemma op_br nl cx s v v1 s1 k locs :
 Proof.
   intros I Hu Enth Hv Hh. destruct I as [W B L Fr Md].
   cbn [vstep] in Hv. unfold label_type in Hv. destruct (nth_error (v_ctrls v) k) as [fk|] eqn:Ek; [|discriminate].
-  destruct (frames_nth _ _ k fk Fr Ek) as (Fl & _). rewrite Fl in Hv. cbn [bt_arity v_popn] in Hv.
+  pose proof (target_label_none _ _ _ _ k fk _ Fr Ek Enth Logic.I) as Fl. rewrite Fl in Hv. cbn [bt_arity v_popn] in Hv.
   unfold v_mark_unreachable in Hv. destruct (v_ctrls v) as [|f r] eqn:Ec; [discriminate|]. rewrite Hu in Hv.
-  inversion Hv; subst v1; clear Hv. destruct (frames_cons _ _ _ Fr) as (Fh & _).
+  inversion Hv; subst v1; clear Hv. destruct (frames_cons _ _ _ _ _ Fr) as (Fh & _).
   unfold handle_opcode in Hh. cbv beta iota zeta in Hh. apply checked in Hh. destruct Hh as [Hh Hl].
   cbn [v_opds] in Hh, Hl.
   unfold push_br_jump in Hh. cbn [set_last c_bp] in Hh. rewrite Enth in Hh.
@@ -312,7 +354,7 @@ Proof.
   splits; auto.
   - constructor; cbn [v_opds v_ctrls v_unreach]; auto.
     + eapply (bpwf_add s s1 (cur_off s + 1) A Bl); auto; lia.
-    + rewrite O2. apply frames_mark. apply frames_update. exact Fr.
+    + rewrite O2, En. apply frames_mark. eapply frames_update; eauto.
     + right. cbn [v_unreach v_ctrls v_opds length]. splits; auto; try discriminate. f_equal. lia.
   - cbn. discriminate.
   - eapply (ext_add s s1 _ (cur_off s + 1) A Bl); eauto. lia.
@@ -329,7 +371,7 @@ Lemma op_br_if nl cx s v v1 s1 k locs :
 Proof.
   intros I Hu Enth Hv Hh. destruct I as [W B L Fr Md].
   cbn [vstep] in Hv. unfold label_type in Hv. destruct (nth_error (v_ctrls v) k) as [fk|] eqn:Ek; [|discriminate].
-  destruct (frames_nth _ _ k fk Fr Ek) as (Fl & _). rewrite Fl in Hv.
+  pose proof (target_label_none _ _ _ _ k fk _ Fr Ek Enth Logic.I) as Fl. rewrite Fl in Hv.
   destruct (v_pop v) as [v2|] eqn:Epop; [|discriminate]. cbn [bt_arity v_popn v_pushn] in Hv. inversion Hv; subst v2; clear Hv.
   unfold handle_opcode in Hh. cbv beta iota zeta in Hh. apply checked in Hh. destruct Hh as [Hh Hl].
   assert (W0 : cwf nl (set_last s None)) by (eapply cwf_same; [|exact W]; unfold same_alloc; cbn; tauto).
@@ -363,7 +405,7 @@ Proof.
   - constructor; auto.
     + eapply cwf_same; [|exact W2]. unfold same_alloc; auto.
     + eapply (bpwf_add s s1 (cur_off s + 1) A Bl); auto; lia.
-    + rewrite Ev2, F2. apply frames_update. exact Fr.
+    + rewrite Ev2, F2, F4, En. eapply frames_update; eauto.
   - eapply (ext_add s s1 _ (cur_off s + 1) A Bl); eauto. lia.
 Qed.
 
@@ -411,19 +453,21 @@ Proof.
 Qed.
 
 Lemma op_else nl cx s v v1 s1 :
-  inv nl s v -> vstep cx v OElse = Some v1 -> handle_opcode cx s v1 (v_reachability v) OElse = Some s1 ->
+  inv nl s v -> match c_bp s with j :: _ => no_res j | [] => True end -> vstep cx v OElse = Some v1 -> handle_opcode cx s v1 (v_reachability v) OElse = Some s1 ->
   exists first more bp' pre,
     c_bp s = JUnknown (first :: more) None :: bp' /\ c_bp s1 = JUnknown (more ++ [cur_off s + 1]) None :: bp'
     /\ length pre = length (c_out s) /\ c_out s1 = pre ++ IBr :: u32_bytes 0
     /\ c_stack s = [] /\ c_stack s1 = [] /\ c_next s1 = c_next s /\ c_consts s1 = c_consts s /\ c_last s1 = None
     /\ ext s s1 /\ resolved s1 first (cur_off s + 5) /\ inv nl s1 v1 /\ v_unreach v1 = None.
 Proof.
-  intros I Hv Hh. destruct I as [W B L Fr Md].
+  intros I Hnr Hv Hh. destruct I as [W B L Fr Md].
   cbn [vstep] in Hv. destruct (v_pop_ctrl v) as [[[res isif] v2]|] eqn:Ep; [|discriminate].
   destruct (v_ctrls v) as [|f r] eqn:Ec; [unfold v_pop_ctrl in Ep; rewrite Ec in Ep; discriminate|].
-  destruct (pop_ctrl_inv v f r (c_bp s) Md Ec Fr _ Ep) as [E0 Ex]. inversion Ex; subst res isif v2; clear Ex.
+  pose proof (top_label_none _ _ _ _ _ Fr Hnr) as Fl.
+  destruct (pop_ctrl_inv nl _ v f r (c_bp s) Md Ec Fr Fl _ Ep) as [E0 Ex]. inversion Ex; subst res isif v2; clear Ex.
   destruct (vf_is_if f) eqn:Eif; [|discriminate]. inversion Hv; subst v1; clear Hv.
-  destruct (frames_cons _ _ _ Fr) as (_ & _ & _ & j0 & bp' & Ebp & Fr' & [(locs & -> & Hne)|(pos & -> & Hk)]); [|congruence].
+  destruct (frames_cons _ _ _ _ _ Fr) as (_ & _ & j0 & bp' & Ebp & Fr' & [(locs & res0 & -> & Hne & _)|(pos & -> & Hk & _)]); [|congruence].
+  rewrite Ebp in Hnr. destruct res0; [contradiction|].
   destruct locs as [|first more]; [exfalso; apply (Hne Eif); reflexivity|].
   rewrite (handle_else cx s _ _ (first :: more) bp' (mode_reach v Md) Ebp) in Hh. cbv zeta in Hh.
   cbn [app] in Hh. apply checked2 in Hh. destruct Hh as [Hs1 _].
@@ -482,14 +526,16 @@ Proof.
   - constructor; cbn [v_push_ctrl v_opds v_ctrls v_unreach]; auto.
     + eapply cwf_same; [|exact W]. unfold same_alloc. auto.
     + rewrite F3, Est. reflexivity.
-    + rewrite F2. constructor; [|exact Fr']. repeat split; cbn; auto. left. eexists; split; [reflexivity|discriminate].
+    + rewrite F2, F4. constructor; [|exact Fr']. repeat split; cbn; auto. left. exists (more ++ [cur_off s + 1]), None. repeat split; try discriminate; exact Logic.I.
     + left. reflexivity.
 Qed.
 
 (** *** br / br_if to a loop label (known target), unreachable *)
 Lemma bp_target nl s v k f : inv nl s v -> nth_error (v_ctrls v) k = Some f ->
-  (exists locs, nth_error (c_bp s) k = Some (JUnknown locs None)) \/ (exists pos, nth_error (c_bp s) k = Some (JKnown pos)).
-Proof. intros I E. apply (frames_nth _ _ k f (i_frames _ _ _ I) E). Qed.
+  (exists locs res, nth_error (c_bp s) k = Some (JUnknown locs res)) \/ (exists pos, nth_error (c_bp s) k = Some (JKnown pos)).
+Proof.
+  intros I E. destruct (frames_nth _ _ _ _ k f (i_frames _ _ _ I) E) as [(locs & res & H & _)|(pos & H & _)]; [left; eauto|right; eauto].
+Qed.
 
 Lemma br_target cx v k v1 : vstep cx v (OBasic (BBr k)) = Some v1 -> exists f, nth_error (v_ctrls v) k = Some f.
 Proof. cbn [vstep]. unfold label_type. destruct (nth_error (v_ctrls v) k); [eauto|discriminate]. Qed.
@@ -497,7 +543,7 @@ Lemma br_if_target cx v k v1 : vstep cx v (OBasic (BBrIf k)) = Some v1 -> exists
 Proof. cbn [vstep]. unfold label_type. destruct (nth_error (v_ctrls v) k); [eauto|discriminate]. Qed.
 
 Lemma terminated_state nl s v f r s2 s1 (t : list N) :
-  cwf nl s -> bpwf s -> Forall2 frame_ok (f :: r) (c_bp s) -> v_ctrls v = f :: r ->
+  cwf nl s -> bpwf s -> Forall2 (frame_ok nl (c_next s)) (f :: r) (c_bp s) -> v_ctrls v = f :: r ->
   c_out s2 = c_out s ++ t -> c_bp s2 = c_bp s -> c_last s2 = None -> c_next s2 = c_next s -> c_consts s2 = c_consts s ->
   cwf nl s2 -> truncate_n (length (c_stack s2) - vf_height f) s2 = Some s1 ->
   length (c_stack s1) = vf_height f ->
@@ -511,13 +557,13 @@ Lemma terminated_state nl s v f r s2 s1 (t : list N) :
 Proof.
   intros W B Fr Ec S1 S2 S3 S4 S5 W2 Hh Hl.
   destruct (truncate_n_spec nl _ s2 s1 Hh W2) as ((O1 & O2 & O3) & En & Ecs & W1 & Ln).
-  destruct (frames_cons _ _ _ Fr) as (Fh & _).
+  destruct (frames_cons _ _ _ _ _ Fr) as (Fh & _).
   assert (Est : c_stack s1 = []) by (destruct (c_stack s1); [reflexivity|cbn in Hl; rewrite Fh in Hl; discriminate]).
   assert (X : ext s s1) by (eapply ext_append; [rewrite O1; exact S1|congruence]).
   splits; auto; try congruence.
   constructor; cbn [v_opds v_ctrls v_unreach]; auto.
   - eapply bpwf_same_locs; [exact B|rewrite O2, S2; reflexivity|destruct X as [Hle _]; unfold cur_off; lia].
-  - rewrite O2, S2. apply frames_mark. exact Fr.
+  - rewrite O2, S2, En, S4. apply frames_mark. exact Fr.
   - right. cbn [v_unreach v_ctrls v_opds length]. splits; auto; try discriminate. f_equal. lia.
 Qed.
 
@@ -530,7 +576,7 @@ Lemma op_br_known nl cx s v v1 s1 k pos :
 Proof.
   intros I Hu Enth Hv Hh. destruct I as [W B L Fr Md].
   cbn [vstep] in Hv. unfold label_type in Hv. destruct (nth_error (v_ctrls v) k) as [fk|] eqn:Ek; [|discriminate].
-  destruct (frames_nth _ _ k fk Fr Ek) as (Fl & _). rewrite Fl in Hv. cbn [bt_arity v_popn] in Hv.
+  pose proof (target_label_none _ _ _ _ k fk _ Fr Ek Enth Logic.I) as Fl. rewrite Fl in Hv. cbn [bt_arity v_popn] in Hv.
   unfold v_mark_unreachable in Hv. destruct (v_ctrls v) as [|f r] eqn:Ec; [discriminate|]. rewrite Hu in Hv.
   inversion Hv; subst v1; clear Hv.
   unfold handle_opcode in Hh. cbv beta iota zeta in Hh. apply checked in Hh. destruct Hh as [Hh Hl].
@@ -575,7 +621,7 @@ Lemma op_br_if_known nl cx s v v1 s1 k pos :
 Proof.
   intros I Hu Enth Hv Hh. destruct I as [W B L Fr Md].
   cbn [vstep] in Hv. unfold label_type in Hv. destruct (nth_error (v_ctrls v) k) as [fk|] eqn:Ek; [|discriminate].
-  destruct (frames_nth _ _ k fk Fr Ek) as (Fl & _). rewrite Fl in Hv.
+  pose proof (target_label_none _ _ _ _ k fk _ Fr Ek Enth Logic.I) as Fl. rewrite Fl in Hv.
   destruct (v_pop v) as [v2|] eqn:Epop; [|discriminate]. cbn [bt_arity v_popn v_pushn] in Hv. inversion Hv; subst v2; clear Hv.
   unfold handle_opcode in Hh. cbv beta iota zeta in Hh. apply checked in Hh. destruct Hh as [Hh Hl].
   assert (W0 : cwf nl (set_last s None)) by (eapply cwf_same; [|exact W]; unfold same_alloc; cbn; tauto).
@@ -604,28 +650,20 @@ Proof.
   constructor; auto.
   - eapply cwf_same; [|exact W2]. unfold same_alloc; auto.
   - eapply bpwf_same_locs; [exact B|rewrite F2; reflexivity|destruct X as [Hle _]; unfold cur_off; lia].
-  - rewrite Ev2, F2. exact Fr.
+  - rewrite Ev2, F2, F4, En. exact Fr.
 Qed.
 
 (** *** return in a function without result *)
-Lemma last_label ctrls bp : Forall2 frame_ok ctrls bp -> ctrls <> [] ->
-  last (map (fun f => Some (vf_label f)) ctrls) None = Some None.
-Proof.
-  induction 1 as [|f j r b Hf Hr IH]; intros Hne; [contradiction|].
-  destruct r as [|g r']; cbn [map last].
-  - destruct Hf as (_ & -> & _). reflexivity.
-  - apply IH. discriminate.
-Qed.
-
 Lemma op_return nl cx s v v1 s1 :
-  inv nl s v -> v_unreach v = None -> cx_return cx = None -> v_ctrls v <> [] ->
+  inv nl s v -> v_unreach v = None -> cx_return cx = None ->
+  last (map (fun f => Some (vf_label f)) (v_ctrls v)) None = Some None ->
   vstep cx v (OBasic BReturn) = Some v1 -> handle_opcode cx s v1 Reachable (OBasic BReturn) = Some s1 ->
   c_out s1 = c_out s ++ [IReturn] /\ c_bp s1 = c_bp s
   /\ c_stack s1 = [] /\ c_next s1 = c_next s /\ c_consts s1 = c_consts s /\ c_last s1 = None
   /\ inv nl s1 v1 /\ v_unreach v1 <> None /\ ext s s1.
 Proof.
   intros I Hu Hret Hne Hv Hh. destruct I as [W B L Fr Md].
-  cbn [vstep] in Hv. rewrite (last_label _ _ Fr Hne) in Hv. cbn [bt_arity v_popn] in Hv.
+  cbn [vstep] in Hv. rewrite Hne in Hv. cbn [bt_arity v_popn] in Hv.
   unfold v_mark_unreachable in Hv. destruct (v_ctrls v) as [|f r] eqn:Ec; [discriminate|]. rewrite Hu in Hv.
   inversion Hv; subst v1; clear Hv.
   unfold handle_opcode in Hh. cbv beta iota zeta in Hh. apply checked in Hh. destruct Hh as [Hh Hl].
@@ -635,4 +673,286 @@ Proof.
   destruct (terminated_state nl s v f r s2 s1 [IReturn] W B Fr Ec eq_refl eq_refl eq_refl eq_refl eq_refl W2 Hh Hl)
     as (A1 & A2 & A3 & A4 & A5 & A6 & A7 & A8).
   splits; auto. cbn. discriminate.
+Qed.
+
+(** ** value-typed blocks: the reserved result register *)
+Lemma remove_z_sub x : forall l y, In y (remove_z x l) -> In y l.
+Proof. induction l as [|a r IH]; cbn; intros y H; auto. destruct (x =? a); [right; exact H|]. destruct H; [left; auto|right; auto]. Qed.
+Lemma remove_z_sorted x : forall l, sorted_lt l -> sorted_lt (remove_z x l).
+Proof.
+  induction l as [|a r IH]; cbn [remove_z sorted_lt]; intros H; auto. destruct H as [H1 H2].
+  destruct (x =? a); [exact H2|]. cbn [sorted_lt]. split; [|auto].
+  apply Forall_forall. intros y Hy. rewrite Forall_forall in H1. apply H1. eapply remove_z_sub; eauto.
+Qed.
+Lemma remove_z_notin x : forall l, sorted_lt l -> ~ In x (remove_z x l).
+Proof.
+  induction l as [|a r IH]; cbn [remove_z sorted_lt]; intros H; [intros []|]. destruct H as [H1 H2].
+  destruct (Z.eqb_spec x a) as [->|Hne].
+  - intros Hin. rewrite Forall_forall in H1. specialize (H1 a Hin). lia.
+  - intros [E|Hin]; [congruence|]. exact (IH H2 Hin).
+Qed.
+
+Lemma cwf_provide_dyn nl s d : cwf nl s -> nl <= d < c_next s -> cwf nl (provide_existing s (PDyn d)).
+Proof.
+  intros [W1 W2 W3 W4 W5] Hd. unfold provide_existing.
+  constructor; cbn [set_dyn set_stack c_stack c_next c_reuse c_consts]; auto.
+  - constructor.
+    + cbn. split; [exact Hd|]. apply remove_z_notin. exact W4.
+    + eapply Forall_impl; [|exact W2]. intros p Hp. destruct p as [r| |]; cbn in *; auto.
+      destruct Hp as [Hr Hn]. split; [exact Hr|]. intros Hin. apply Hn. eapply remove_z_sub; eauto.
+  - apply Forall_forall. intros y Hy. rewrite Forall_forall in W3. apply W3. eapply remove_z_sub; eauto.
+  - apply remove_z_sorted. exact W4.
+Qed.
+
+Definition copy_bytes (p : provider) (d : Z) : list N :=
+  if provider_eqb p (PDyn d) then [] else ICopy :: i32_bytes (provider_idx p) ++ i32_bytes d.
+Lemma copy_if_needed_out s p d : c_out (copy_if_needed s p (PDyn d)) = c_out s ++ copy_bytes p d
+  /\ c_bp (copy_if_needed s p (PDyn d)) = c_bp s /\ same_alloc s (copy_if_needed s p (PDyn d))
+  /\ c_last (copy_if_needed s p (PDyn d)) = c_last s.
+Proof.
+  unfold copy_if_needed, copy_bytes. destruct (provider_eqb p (PDyn d)).
+  - rewrite app_nil_r. unfold same_alloc. repeat split; auto.
+  - cbn [push_loc push_op emit set_out c_out c_bp c_last provider_idx]. rewrite <- !app_assoc. unfold same_alloc. cbn. repeat split; auto.
+Qed.
+
+Lemma op_block_val nl cx s v v1 s1 t :
+  inv nl s v -> v_unreach v = None -> v_opds v = 0%nat ->
+  vstep cx v (OBlock (Some t)) = Some v1 -> handle_opcode cx s v1 Reachable (OBlock (Some t)) = Some s1 ->
+  exists d, nl <= d < c_next s1 /\ c_out s1 = c_out s /\ c_bp s1 = JUnknown [] (Some (PDyn d)) :: c_bp s
+  /\ c_stack s1 = c_stack s /\ mono s s1 /\ c_last s1 = None /\ inv nl s1 v1 /\ v_unreach v1 = None.
+Proof.
+  intros I Hu H0 Hv Hh. cbn [vstep] in Hv. inversion Hv; subst v1; clear Hv.
+  destruct I as [W B L Fr Md].
+  unfold handle_opcode in Hh. cbv beta iota zeta in Hh.
+  assert (W0 : cwf nl (set_last s None)) by (eapply cwf_same; [|exact W]; unfold same_alloc; cbn; tauto).
+  destruct (dyn_get (set_last s None)) as [d s2] eqn:Ed.
+  destruct (dyn_get_spec nl _ d s2 Ed W0) as (Hd & Hnr & _ & Es & (O1 & O2 & O3) & Ec & Hn & _ & W2).
+  cbn [set_last c_out c_bp c_stack c_next c_consts c_last] in Es, O1, O2, O3, Ec, Hn.
+  apply checked2 in Hh. destruct Hh as [Hh Hl]. subst s1.
+  cbn [set_bp c_out c_bp c_stack c_next c_reuse c_consts c_last v_push_ctrl v_unreach v_opds v_ctrls] in *.
+  exists d. splits; auto; try lia.
+  - rewrite O2. reflexivity.
+  - split; [cbn; lia|exists []; rewrite app_nil_r; exact Ec].
+  - constructor; cbn [set_bp c_out c_bp c_stack c_next c_reuse c_consts c_last v_push_ctrl v_unreach v_opds v_ctrls]; auto.
+    + eapply cwf_same; [|exact W2]. unfold same_alloc; cbn; tauto.
+    + eapply (bpwf_same_locs s); [exact B|cbn; rewrite O2; reflexivity|unfold cur_off; cbn; rewrite O1; lia].
+    + constructor.
+      * repeat split; cbn; auto. left. exists [], (Some (PDyn d)). repeat split; try discriminate; cbn; lia.
+      * rewrite O2. eapply frames_mono; [|exact Fr]. lia.
+    + left. exact Hu.
+Qed.
+
+(** closing a value-typed frame: [sm] is the state after the result has been moved into the reserved
+    register; the pending jumps of the frame are then patched to the offset after that move *)
+Lemma end_val_tail s sm s1 locs res bp' t :
+  bpwf s -> c_bp s = JUnknown locs res :: bp' -> c_bp sm = bp' -> c_last sm = None -> c_out sm = c_out s ++ t ->
+  s1 = fold_left (fun acc l => back_patch acc l (cur_off sm)) locs sm ->
+  c_bp s1 = bp' /\ c_stack s1 = c_stack sm /\ c_next s1 = c_next sm /\ c_reuse s1 = c_reuse sm /\ c_consts s1 = c_consts sm
+  /\ c_last s1 = None /\ cur_off s1 = cur_off s + Z.of_nat (length t) /\ bpwf s1 /\ ext s s1
+  /\ (forall loc, In loc locs -> resolved s1 loc (cur_off s1))
+  /\ (forall j, (j < length t)%nat -> nth (length (c_out s) + j) (c_out s1) 0%N = nth j t 0%N
+                                     /\ ~ pending s1 (length (c_out s) + j)).
+Proof.
+  intros B Ebp Em El Eo Hs1.
+  set (sx := set_bp sm (JUnknown locs res :: bp')).
+  assert (Esm : sm = set_bp (set_last sx None) bp').
+  { unfold sx. destruct sm. cbn in *. subst. reflexivity. }
+  assert (Ecx : cur_off sx = cur_off s + Z.of_nat (length t)).
+  { unfold cur_off, sx. cbn [set_bp c_out]. rewrite Eo, app_length. lia. }
+  assert (Bx : bpwf sx).
+  { eapply (bpwf_same_locs s); [exact B|unfold sx; cbn [set_bp c_bp]; rewrite Ebp; reflexivity|lia]. }
+  assert (Xx : ext s sx) by (eapply (ext_append s sx t); [exact Eo|unfold sx; cbn [set_bp c_bp]; rewrite Ebp; reflexivity]).
+  rewrite Esm in Hs1. change (cur_off (set_bp (set_last sx None) bp')) with (cur_off sx) in Hs1.
+  destruct (end_patch sx locs res bp' s1 Bx eq_refl Hs1) as (A1 & A2 & A3 & A4 & A5 & A6 & A7 & A8 & A9 & A10).
+  splits; auto; try lia.
+  - eapply ext_trans; eauto.
+  - intros loc Hl. rewrite A7. apply A10. exact Hl.
+  - intros j Hj. destruct A9 as [_ A9].
+    assert (Hq : (length (c_out s) + j < length (c_out sx))%nat) by (unfold sx; cbn [set_bp c_out]; rewrite Eo, app_length; lia).
+    assert (Hnp : ~ pending sx (length (c_out s) + j)).
+    { intros (loc & Hl & Hw). unfold sx in Hl. cbn [set_bp c_bp] in Hl. rewrite <- Ebp in Hl.
+      destruct (bw_range _ B loc Hl). unfold in_win, cur_off in *. lia. }
+    destruct (A9 _ Hq Hnp) as [E1 N1]. split; [|exact N1].
+    rewrite E1. unfold sx. cbn [set_bp c_out]. rewrite Eo, app_nth2 by lia. f_equal. lia.
+Qed.
+
+Lemma handle_end_val_r cx s v locs res bp' :
+  c_bp s = JUnknown locs (Some res) :: bp' ->
+  handle_opcode cx s v Reachable OEnd =
+  match consume (set_bp (set_last s None) bp') with
+  | Some (p, s2) =>
+      let s3 := provide_existing (copy_if_needed s2 p res) res in
+      let s4 := fold_left (fun acc l => back_patch acc l (cur_off s3)) locs s3 in
+      if (length (c_stack s4) =? v_opds v)%nat then Some s4 else None
+  | None => None
+  end.
+Proof.
+  intros E. unfold handle_opcode. cbv beta iota zeta. cbn [set_last c_bp]. rewrite E.
+  destruct (consume (set_bp (set_last s None) bp')) as [[p s2]|]; reflexivity.
+Qed.
+Lemma handle_end_val_u cx s v locs res bp' :
+  c_bp s = JUnknown locs (Some res) :: bp' -> length (c_stack s) <> v_opds v ->
+  handle_opcode cx s v UnreachableInstruction OEnd =
+  let s3 := provide_existing (set_bp (set_last s None) bp') res in
+  let s4 := fold_left (fun acc l => back_patch acc l (cur_off s3)) locs s3 in
+  if (length (c_stack s4) =? v_opds v)%nat then Some s4 else None.
+Proof.
+  intros E Hn. unfold handle_opcode. cbv beta iota zeta. cbn [set_last c_bp]. rewrite E.
+  change (c_stack (set_bp (set_last s None) bp')) with (c_stack s). apply Nat.eqb_neq in Hn. rewrite Hn. reflexivity.
+Qed.
+
+Lemma op_end_val nl cx s v v1 s1 locs d bp' :
+  inv nl s v -> c_bp s = JUnknown locs (Some (PDyn d)) :: bp' ->
+  vstep cx v OEnd = Some v1 -> handle_opcode cx s v1 (v_reachability v) OEnd = Some s1 ->
+  exists t, c_bp s1 = bp' /\ c_stack s1 = [PDyn d]
+  /\ c_next s1 = c_next s /\ c_consts s1 = c_consts s /\ c_last s1 = None /\ ext s s1
+  /\ cur_off s1 = cur_off s + Z.of_nat (length t)
+  /\ (forall loc, In loc locs -> resolved s1 loc (cur_off s1))
+  /\ (forall j, (j < length t)%nat -> nth (length (c_out s) + j) (c_out s1) 0%N = nth j t 0%N
+                                     /\ ~ pending s1 (length (c_out s) + j))
+  /\ inv nl s1 v1 /\ v_unreach v1 = None /\ nl <= d < c_next s
+  /\ ((v_unreach v = None /\ exists p, c_stack s = [p] /\ pwf nl s p /\ t = copy_bytes p d)
+      \/ (v_unreach v <> None /\ c_stack s = [] /\ t = [])).
+Proof.
+  intros I Ebp Hv Hh. destruct I as [W B L Fr Md].
+  destruct (v_ctrls v) as [|f r] eqn:Ec; [cbn [vstep] in Hv; unfold v_pop_ctrl in Hv; rewrite Ec in Hv; discriminate|].
+  destruct (target_label_some nl _ (f :: r) (c_bp s) O f locs (PDyn d) Fr eq_refl ltac:(rewrite Ebp; reflexivity))
+    as (t0 & d0 & Fl & Ed & Hd). inversion Ed; subst d0; clear Ed.
+  destruct (frames_cons _ _ _ _ _ Fr) as (Fh & Fe & j0 & bp0 & Ebp0 & Fr' & _). rewrite Fl in Fe.
+  rewrite Ebp in Ebp0. inversion Ebp0; subst j0 bp0; clear Ebp0.
+  (* the validation step *)
+  assert (Hv1 : v1 = {| v_opds := 1; v_ctrls := r; v_unreach := None |} /\
+                ((v_unreach v = None /\ v_opds v = 1%nat) \/ (v_unreach v <> None /\ v_opds v = 0%nat))).
+  { cbn [vstep] in Hv. unfold v_pop_ctrl in Hv. rewrite Ec, Fe in Hv. cbn [bt_arity v_popn] in Hv.
+    unfold v_pop in Hv. rewrite Ec, Fh in Hv.
+    destruct Md as [Hu|(Hu & _ & H0)].
+    - destruct (Nat.eqb_spec (v_opds v) 0) as [E0|Hne].
+      + (* nothing to consume: the compiler fails *)
+        exfalso. rewrite (reach_of_none v Hu) in Hh. rewrite (handle_end_val_r cx s v1 locs (PDyn d) bp' Ebp) in Hh.
+        unfold consume in Hh. cbn [set_bp set_last c_stack] in Hh.
+        destruct (c_stack s); [discriminate|]. cbn in L. lia.
+      + cbn [v_opds v_ctrls v_unreach] in Hv.
+        destruct (Nat.eqb_spec (pred (v_opds v)) 0); [|discriminate]. rewrite Hu in Hv.
+        cbn [bt_arity v_pushn v_push v_opds v_ctrls v_unreach] in Hv. rewrite e in Hv. inversion Hv. split; [reflexivity|]. left. split; [exact Hu|lia].
+    - rewrite H0 in Hv. cbn [Nat.eqb] in Hv. destruct (vf_unreachable f); [|discriminate]. rewrite H0 in Hv. cbn [Nat.eqb] in Hv.
+      rewrite Hu, Ec in Hv. cbn [length] in Hv. replace (S (length r) - 1)%nat with (length r) in Hv by lia.
+      rewrite Nat.eqb_refl in Hv. cbn [bt_arity v_pushn v_push v_opds v_ctrls v_unreach] in Hv. inversion Hv.
+      split; [reflexivity|]. right. split; [rewrite Hu; discriminate|exact H0]. }
+  destruct Hv1 as [-> Hcase]. clear Hv.
+  assert (W0 : cwf nl (set_bp (set_last s None) bp')) by (eapply cwf_same; [|exact W]; unfold same_alloc; cbn; tauto).
+  (* common tail *)
+  assert (Tail : forall sm t, c_bp sm = bp' -> c_last sm = None -> c_out sm = c_out s ++ t -> c_stack sm = [PDyn d] ->
+            c_next sm = c_next s -> c_consts sm = c_consts s -> cwf nl sm ->
+            s1 = fold_left (fun acc l => back_patch acc l (cur_off sm)) locs sm ->
+            c_bp s1 = bp' /\ c_stack s1 = [PDyn d] /\ c_next s1 = c_next s /\ c_consts s1 = c_consts s /\ c_last s1 = None /\ ext s s1
+            /\ cur_off s1 = cur_off s + Z.of_nat (length t)
+            /\ (forall loc, In loc locs -> resolved s1 loc (cur_off s1))
+            /\ (forall j, (j < length t)%nat -> nth (length (c_out s) + j) (c_out s1) 0%N = nth j t 0%N /\ ~ pending s1 (length (c_out s) + j))
+            /\ inv nl s1 {| v_opds := 1; v_ctrls := r; v_unreach := None |}).
+  { intros sm t Em El Eo Es En Ecs Wm Hs1.
+    destruct (end_val_tail s sm s1 locs (Some (PDyn d)) bp' t B Ebp Em El Eo Hs1) as (A1 & A2 & A3 & A4 & A5 & A6 & A7 & A8 & A9 & A10 & A11).
+    splits; auto; try congruence.
+    constructor; cbn [v_opds v_ctrls v_unreach]; auto.
+    - eapply cwf_same; [|exact Wm]. unfold same_alloc. auto.
+    - rewrite A2, Es. reflexivity.
+    - rewrite A1, A3, En. exact Fr'.
+    - left. reflexivity. }
+  destruct Hcase as [[Hu H1]|[Hu H0]].
+  - rewrite (reach_of_none v Hu) in Hh. rewrite (handle_end_val_r cx s _ locs (PDyn d) bp' Ebp) in Hh.
+    destruct (consume (set_bp (set_last s None) bp')) as [[p s2]|] eqn:Econs; [|discriminate].
+    destruct (consume_spec nl _ p s2 Econs W0) as (Es & (O1 & O2 & O3) & En & Ecs & W2 & Pp).
+    cbn [set_bp set_last c_out c_bp c_stack c_next c_reuse c_consts c_last] in Es, O1, O2, O3, En, Ecs.
+    cbv zeta in Hh. apply checked2 in Hh. destruct Hh as [Hs1 _]. symmetry in Hs1.
+    assert (Est : c_stack s2 = []).
+    { rewrite Es in L. rewrite H1 in L. cbn in L. destruct (c_stack s2); [reflexivity|cbn in L; lia]. }
+    destruct (copy_if_needed_out s2 p d) as (C1 & C2 & (C3 & C4 & C5 & C6) & C7).
+    set (sc := copy_if_needed s2 p (PDyn d)) in *.
+    assert (Wc : cwf nl sc) by (eapply cwf_same; [|exact W2]; unfold same_alloc; auto).
+    assert (Wm : cwf nl (provide_existing sc (PDyn d))) by (apply cwf_provide_dyn; [exact Wc|rewrite C4, En; exact Hd]).
+    assert (T1 : c_bp (provide_existing sc (PDyn d)) = bp') by (cbn; rewrite C2; exact O2).
+    assert (T2 : c_last (provide_existing sc (PDyn d)) = None) by (cbn; rewrite C7; exact O3).
+    assert (T3 : c_out (provide_existing sc (PDyn d)) = c_out s ++ copy_bytes p d) by (cbn; rewrite C1, O1; reflexivity).
+    assert (T4 : c_stack (provide_existing sc (PDyn d)) = [PDyn d]) by (cbn; rewrite C3, Est; reflexivity).
+    assert (T5 : c_next (provide_existing sc (PDyn d)) = c_next s) by (cbn; rewrite C4; exact En).
+    assert (T6 : c_consts (provide_existing sc (PDyn d)) = c_consts s) by (cbn; rewrite C6; exact Ecs).
+    destruct (Tail _ _ T1 T2 T3 T4 T5 T6 Wm Hs1) as (A1 & A2 & A3 & A4 & A5 & A6 & A7 & A8 & A9 & A10).
+    exists (copy_bytes p d). split; [exact A1|]. split; [exact A2|]. split; [exact A3|]. split; [exact A4|]. split; [exact A5|]. split; [exact A6|]. split; [exact A7|]. split; [exact A8|]. split; [exact A9|]. split; [exact A10|]. split; [reflexivity|]. split; [exact Hd|].
+    left. split; [exact Hu|]. exists p. rewrite Est in Es. split; [exact Es|]. split; [|reflexivity].
+    destruct p; cbn in Pp |- *; auto.
+  - assert (Hreach : v_reachability v = UnreachableInstruction).
+    { destruct Md as [Hm|(Hm & Hn & _)]; [contradiction|]. apply reach_term; auto. }
+    rewrite Hreach in Hh.
+    assert (Est : c_stack s = []) by (destruct (c_stack s); [reflexivity|cbn in L; lia]).
+    rewrite (handle_end_val_u cx s _ locs (PDyn d) bp' Ebp) in Hh by (rewrite Est; cbn; discriminate).
+    cbv zeta in Hh. apply checked2 in Hh. destruct Hh as [Hs1 _]. symmetry in Hs1.
+    assert (Wm : cwf nl (provide_existing (set_bp (set_last s None) bp') (PDyn d))) by (apply cwf_provide_dyn; [exact W0|exact Hd]).
+    assert (T3 : c_out (provide_existing (set_bp (set_last s None) bp') (PDyn d)) = c_out s ++ []) by (cbn; rewrite app_nil_r; reflexivity).
+    assert (T4 : c_stack (provide_existing (set_bp (set_last s None) bp') (PDyn d)) = [PDyn d]) by (cbn; rewrite Est; reflexivity).
+    destruct (Tail (provide_existing (set_bp (set_last s None) bp') (PDyn d)) [] eq_refl eq_refl T3 T4 eq_refl eq_refl Wm Hs1) as (A1 & A2 & A3 & A4 & A5 & A6 & A7 & A8 & A9 & A10).
+    exists []. split; [exact A1|]. split; [exact A2|]. split; [exact A3|]. split; [exact A4|]. split; [exact A5|]. split; [exact A6|]. split; [exact A7|]. split; [exact A8|]. split; [exact A9|]. split; [exact A10|]. split; [reflexivity|]. split; [exact Hd|].
+    right. auto.
+Qed.
+
+Lemma copy_bytes_length p d : length (copy_bytes p d) = if provider_eqb p (PDyn d) then 0%nat else 9%nat.
+Proof. unfold copy_bytes. destruct (provider_eqb p (PDyn d)); [reflexivity|]. cbn [length]. rewrite app_length, !i32_bytes_length. reflexivity. Qed.
+
+Lemma op_br_val nl cx s v v1 s1 k locs d :
+  inv nl s v -> v_unreach v = None -> nth_error (c_bp s) k = Some (JUnknown locs (Some (PDyn d))) ->
+  vstep cx v (OBasic (BBr k)) = Some v1 -> handle_opcode cx s v1 Reachable (OBasic (BBr k)) = Some s1 ->
+  exists p rest, c_stack s = p :: rest /\ pwf nl s p /\ nl <= d < c_next s
+  /\ c_out s1 = c_out s ++ copy_bytes p d ++ IBr :: u32_bytes 0
+  /\ c_bp s1 = update_nth (c_bp s) k (JUnknown (locs ++ [cur_off s + Z.of_nat (length (copy_bytes p d)) + 1]) (Some (PDyn d)))
+  /\ c_stack s1 = [] /\ c_next s1 = c_next s /\ c_consts s1 = c_consts s /\ c_last s1 = None
+  /\ inv nl s1 v1 /\ v_unreach v1 <> None /\ ext s s1.
+Proof.
+  intros I Hu Enth Hv Hh. destruct I as [W B L Fr Md].
+  cbn [vstep] in Hv. unfold label_type in Hv. destruct (nth_error (v_ctrls v) k) as [fk|] eqn:Ek; [|discriminate].
+  destruct (target_label_some _ _ _ _ k fk locs (PDyn d) Fr Ek Enth) as (t0 & d0 & Fl & Ed & Hd). inversion Ed; subst d0; clear Ed.
+  rewrite Fl in Hv. cbn [bt_arity v_popn] in Hv.
+  destruct (v_ctrls v) as [|f r] eqn:Ec; [unfold v_pop in Hv; rewrite Ec in Hv; discriminate|].
+  assert (Hv1 : v1 = {| v_opds := vf_height f;
+                        v_ctrls := {| vf_is_if := vf_is_if f; vf_label := vf_label f; vf_end := vf_end f;
+                                      vf_height := vf_height f; vf_unreachable := true |} :: r;
+                        v_unreach := Some (length r) |}).
+  { unfold v_pop in Hv. rewrite Ec in Hv.
+    destruct (v_opds v =? vf_height f)%nat; [destruct (vf_unreachable f); [|discriminate]|];
+      unfold v_mark_unreachable in Hv; cbn [v_ctrls v_unreach] in Hv; rewrite ?Ec, Hu in Hv; inversion Hv; reflexivity. }
+  subst v1. clear Hv. destruct (frames_cons _ _ _ _ _ Fr) as (Fh & _).
+  unfold handle_opcode in Hh. cbv beta iota zeta in Hh. apply checked in Hh. destruct Hh as [Hh Hl].
+  cbn [v_opds] in Hh, Hl.
+  unfold push_br_jump in Hh. cbn [set_last c_bp] in Hh. rewrite Enth in Hh.
+  assert (W0 : cwf nl (set_last s None)) by (eapply cwf_same; [|exact W]; unfold same_alloc; cbn; tauto).
+  destruct (consume (set_last s None)) as [[p s2]|] eqn:Econs; [|discriminate].
+  destruct (consume_spec nl _ p s2 Econs W0) as (Es & (O1 & O2 & O3) & En & Ecs & W2 & Pp).
+  cbn [set_last c_out c_bp c_stack c_next c_reuse c_consts c_last] in Es, O1, O2, O3, En, Ecs.
+  destruct (copy_if_needed_out s2 p d) as (C1 & C2 & (C3 & C4 & C5 & C6) & C7).
+  set (sc := copy_if_needed s2 p (PDyn d)) in *.
+  unfold insert_jump_location in Hh. change (c_bp (push_op sc IBr)) with (c_bp sc) in Hh. rewrite C2, O2, Enth in Hh.
+  set (s3 := emit _ (u32_bytes 0)) in Hh.
+  assert (Wc : cwf nl sc) by (eapply cwf_same; [|exact W2]; unfold same_alloc; auto).
+  assert (W3 : cwf nl s3) by (eapply cwf_same; [|exact Wc]; unfold same_alloc; cbn; tauto).
+  unfold truncate in Hh.
+  destruct (truncate_n_spec nl _ s3 s1 Hh W3) as ((T1 & T2 & T3) & Tn & Tc & W1 & Ln).
+  set (x := cur_off s + Z.of_nat (length (copy_bytes p d)) + 1).
+  assert (S1 : c_out s3 = c_out s ++ copy_bytes p d ++ IBr :: u32_bytes 0).
+  { subst s3. cbn [emit set_out set_bp push_op c_out]. rewrite C1, O1, <- !app_assoc. reflexivity. }
+  assert (S2 : c_bp s3 = update_nth (c_bp s) k (JUnknown (locs ++ [x]) (Some (PDyn d)))).
+  { subst s3. cbn [emit set_out set_bp c_bp push_op]. do 4 f_equal. unfold x, cur_off. cbn [c_out emit set_out push_op].
+    rewrite C1, O1, !app_length. cbn [length]. lia. }
+  assert (S3 : c_last s3 = None) by (subst s3; cbn; rewrite C7; exact O3).
+  assert (S4 : c_next s3 = c_next s) by (subst s3; cbn; rewrite C4; exact En).
+  assert (S5 : c_consts s3 = c_consts s) by (subst s3; cbn; rewrite C6; exact Ecs).
+  rewrite S1 in T1. rewrite S2 in T2. rewrite S3 in T3. rewrite S4 in Tn. rewrite S5 in Tc. clearbody s3.
+  assert (Est : c_stack s1 = []) by (destruct (c_stack s1); [reflexivity|cbn in Hl; rewrite Fh in Hl; discriminate]).
+  destruct (all_locs_update (c_bp s) k locs (Some (PDyn d)) x Enth) as (A & Bl & EA & EB). rewrite <- T2 in EB.
+  assert (Ecur : cur_off s1 = x + 4).
+  { unfold cur_off, x. rewrite T1, !app_length. cbn [length]. rewrite u32_bytes_length. unfold cur_off. lia. }
+  assert (Hx : cur_off s <= x) by (unfold x; lia).
+  exists p, (c_stack s2). splits; auto; try lia; try (destruct p; cbn in Pp |- *; auto; fail).
+  - constructor; cbn [v_opds v_ctrls v_unreach]; auto.
+    + eapply (bpwf_add s s1 x A Bl); auto; lia.
+    + rewrite T2, Tn. apply frames_mark. eapply frames_update; eauto.
+    + right. cbn [v_unreach v_ctrls v_opds length]. splits; auto; try discriminate. f_equal. lia.
+  - cbn. discriminate.
+  - eapply (ext_add s s1 _ x A Bl); eauto.
 Qed.
